@@ -1501,6 +1501,11 @@ func (n *node) RouteApplicationStart(
 	if err := n.applicationStartDepends(name, app, options.ApplicationOptions); err != nil {
 		return err
 	}
+	if mode == 0 {
+		// the remote node did not ask for a mode (RemoteNode.ApplicationStart):
+		// it is the mode of the application specification, as for the local start
+		mode = app.spec.Mode
+	}
 	return app.start(mode, options)
 }
 
